@@ -984,6 +984,13 @@ def check_async_effect_order(run, ctx):
         for (gb, gt) in sites.get('get', []):
             if any(gb in body.reachable(y) for y in yields):
                 probs.append('the lookup can run after a suspension')
+        # the wrapper itself must not touch the store / queue statics: only the cache object's get / insert* do
+        from .effects import classify as _cls
+        for b, t in body.calls():
+            k = _cls(t)
+            if k and not k.startswith(('hit', 'miss')):
+                where_ = 'before the body is awaited' if any(y in body.reachable(b) for y in yields) else 'after the body'
+                probs.append('the generated wrapper performs %s on the cache statics directly (%s, %s)' % (k, callee_name(t).rsplit('::', 1)[-1], where_))
         if probs:
             run.bad('C20-W1', _fx_key(w, 'effect-order'), '%s: %s' % (w.path, '; '.join(sorted(set(probs)))), site=w.path,
                     oracle='stores dominated by the Ready edge of the body future; no cache mutation before it')
